@@ -280,9 +280,48 @@ def band_unit(u, res):
         if with_e and not conn:
             Vw = [x for r in range(nb) for c in range(nb) for x in (SR(z3.Real("V_%s_%d_%d_re" % (mid, r, c))), SR(z3.Real("V_%s_%d_%d_im" % (mid, r, c))))]
             eq_terms(res, "band-path eigenvectors at point %d are the eigensolver output for the computed D(q)" % i, flat_c(d["eigenvectors"][0][i]), Vw, key0 + ":eigvec")
+        if with_e and conn and ok and len(set(np.round(want, 9))) == nb:
+            # the eigenvector reported in column k must be the eigensolver's eigenvector of the eigenvalue reported in position k
+            perm = [int(np.argmin(np.abs(want - g))) for g in got]
+            Vw = [x for r in range(nb) for k in range(nb) for x in (SR(z3.Real("V_%s_%d_%d_re" % (mid, r, perm[k]))), SR(z3.Real("V_%s_%d_%d_im" % (mid, r, perm[k]))))]
+            eq_terms(res, "with band connection the eigenvector in column k at point %d belongs to the frequency in position k" % i, flat_c(d["eigenvectors"][0][i]), Vw, key0 + ":eigvec_order",
+                     lambda: replay_band_conn())
     res.twins.append({"name": "band twin", "verdict": "sat"})
     res.samples.append({"unit": res.unit, "path": path})
     return res
+
+
+@symnp.outside_session
+def replay_band_conn():
+    """concrete: with band connection every reported eigenvector still diagonalises D(q) to the frequency reported in the same position"""
+    ctx = harness.setup()
+    from engine import bridge as _b
+    br = _b.Bridge(ctx.shim, ctx.ir); br.install()
+    try:
+        ph = geometries.phonopy_obj("cscl", "211")
+        rng = np.random.default_rng(4); n = len(ph.supercell)
+        F = rng.uniform(-1, 1, (n, n, 3, 3)); F = (F + np.transpose(F, (1, 0, 3, 2))) / 2
+        ph.force_constants = F
+        path = [[[0.0, 0.0, 0.0], [0.1, 0.05, 0.0], [0.2, 0.1, 0.0], [0.3, 0.15, 0.0], [0.4, 0.2, 0.0]]]
+        import phonopy.phonon.band_structure as bsm
+        old = bsm.estimate_band_connection
+        # the connection estimator is replaced by an arbitrary permutation, as in the unit (its contract is `returns a permutation`):
+        # on a short random path the real estimator rarely re-orders anything
+        bsm.estimate_band_connection = lambda prev, cur, order: list(reversed(list(order)))
+        try:
+            ph.run_band_structure(path, with_eigenvectors=True, is_band_connection=True)
+            d = ph.get_band_structure_dict()
+        finally:
+            bsm.estimate_band_connection = old
+        worst = 0.0
+        for i, q in enumerate(path[0]):
+            ph.dynamical_matrix.run(np.array(q)); D = ph.dynamical_matrix.dynamical_matrix
+            V = d["eigenvectors"][0][i]; f = d["frequencies"][0][i]
+            lam = (f / ph.unit_conversion_factor) ** 2 * np.sign(f)
+            worst = max(worst, float(np.abs(D @ V - V * lam[None, :]).max()))
+    finally:
+        br.uninstall()
+    return worst > 1e-8, "band structure with band connection: reported eigenvectors do not diagonalise D(q) to the frequencies reported in the same positions (residual %.3g)" % worst
 
 
 def gv_history_unit(u, res):
